@@ -266,6 +266,60 @@ def model_funcs(model, anchors):
     return out
 
 
+def padding_clause(model, rep, funcs):
+    """The search-range padding of the (Z)NCC landscapes is neutral: the image handed to ncc_landscape is padded with its own mean
+    (0 after mean subtraction), in the landscape and in the sub-pixel variant alike."""
+    kinds = {}
+    for name in ("zncc_landscape_with_crop", "subpixel_zncc", "ncc_landscape_with_crop", "subpixel_ncc"):
+        try:
+            f = funcs.get(BZ + name) or model.func(BZ + name)
+        except Exception:
+            continue
+        M = Matcher(f)
+        calls = [c for c in calls_in(f) if (dotted(c.func) or "").endswith("ncc_landscape")]
+        rep.instance("PAD", f.loc())
+        if len(calls) != 1 or not calls[0].args:
+            rep.ob("PAD", f.anchor, "one call of ncc_landscape", None, f"{len(calls)} calls", node=f.node, fn=f, clause="1 formula", stmt=f"def {name} pad")
+            continue
+        c = calls[0]
+        x = M.expr(c.args[0])
+        cv = kwarg(c, "constant_values")
+        cvx = M.expr(cv) if cv is not None else ast.Constant(value=0)
+        xs, cs = ast.unparse(x), ast.unparse(cvx)
+        if isinstance(x, ast.Name):
+            # a parameter re-bound in straight-line code before the call (`img0 = img0 - img0.mean()`): take its last definition
+            last = None
+            for st in f.node.body:
+                if st.lineno >= c.lineno:
+                    break
+                if isinstance(st, ast.Assign) and len(st.targets) == 1 and isinstance(st.targets[0], ast.Name) and st.targets[0].id == x.id:
+                    last = st.value
+            if last is not None:
+                x = last
+                xs = ast.unparse(x)
+        centred = isinstance(x, ast.BinOp) and isinstance(x.op, ast.Sub) and isinstance(x.left, ast.Name) and \
+            ast.unparse(x.right) in (f"{x.left.id}.mean()", f"np.mean({x.left.id})", f"backend.mean({x.left.id})")
+        if centred:
+            ok = cs in ("0", "0.0")
+            kind = "centred/0"
+            det = "" if ok else f"the mean-subtracted image `{xs}` is padded with `{cs}`: every off-centre landscape value then depends on an added constant (offset invariance lost)"
+        elif isinstance(x, ast.Name):
+            ok = cs in (f"{x.id}.mean()", f"np.mean({x.id})", f"backend.mean({x.id})")
+            kind = "raw/mean"
+            det = "" if ok else f"the image `{xs}` is padded with `{cs}` instead of its own mean"
+        else:
+            ok, kind, det = None, "?", f"image operand `{xs}`, pad constant `{cs}`"
+        kinds[name] = (kind, ok)
+        rep.ob("PAD", f.anchor, "the search-range padding is neutral (the padded image is extended with its own mean: 0 for the centred ZNCC operand)", ok, det, node=c, fn=f,
+               clause="1 formula", stmt=f"def {name} pad")
+    for a_, b_ in (("zncc_landscape_with_crop", "subpixel_zncc"), ("ncc_landscape_with_crop", "subpixel_ncc")):
+        if a_ in kinds and b_ in kinds:
+            rep.ob("S11", BZ + a_, f"landscape and alignment ({a_} / {b_}) pad the same way, so the landscape maximum is where alignment reports it",
+                   kinds[a_][0] == kinds[b_][0] if "?" not in (kinds[a_][0], kinds[b_][0]) else None, f"{kinds[a_][0]} vs {kinds[b_][0]}", clause="1 formula",
+                   stmt=f"pad siblings {a_}")
+    rep.floor("PAD", 4, "(two landscapes, two sub-pixel variants)")
+
+
 def check(model, rep, tier):
     rep.decided += ["C07.1 ncc/zncc/fsc are in Cauchy-Schwarz form with one reducer, degree (0,0), symmetric; zncc mean-subtracts both inputs; "
                     "the window-normalised landscape has degree (0,0)",
@@ -278,3 +332,4 @@ def check(model, rep, tier):
     formula_clause(model, rep, funcs)
     chain_clause(model, rep, funcs)
     geometry_clause(model, rep, funcs)
+    padding_clause(model, rep, funcs)
